@@ -52,31 +52,56 @@ def _rename_symbols(t, table):
     return t
 
 
+def symbol_readings(used, names):
+    """Candidate readings of the symbolic constants a problem uses (`used`) as constants of the task (`names`: every
+    identifier written in the task), *without restating anthem's renaming rule*. A reading maps every emitted constant to
+    a task name so that (1) a constant that is not written in the task is a renamed one, <original><suffix> with one
+    suffix for the whole problem, (2) no two emitted constants are read as the same task constant - so when the original
+    of a renamed constant is itself among the emitted constants, that one must be a renamed constant too (and so on).
+    Returned in order of preference: forced renamings with the shortest suffix first; the identity reading (every constant
+    stands for itself) when nothing forces a renaming. An empty list means that no consistent reading exists."""
+    used = sorted(used)
+    forced = [d for d in used if d not in names]
+    if not forced:
+        out = [{}]
+        # an unforced renaming is still possible (all emitted names happen to be written in the task): offer it as well
+        suffixes = sorted({d[len(c):] for d in used for c in names if d != c and d.startswith(c) and c not in used
+                           and d[len(c)] == '_'}, key=len)      # (a renaming suffix is assumed to start with an underscore)
+    else:
+        out = []
+        suffixes = sorted({d[len(c):] for d in forced for c in names if d.startswith(c) and d != c}, key=len)
+    for suf in suffixes:
+        table, todo, ok = {}, list(forced) if forced else [d for d in used if d.endswith(suf) and d[:-len(suf)] in names
+                                                               and d[:-len(suf)] not in used], True
+        if not todo:
+            continue
+        while todo and ok:
+            d = todo.pop()
+            if d in table:
+                continue
+            if not d.endswith(suf) or d[:-len(suf)] not in names:
+                ok = False
+                break
+            table[d] = d[:-len(suf)]
+            if table[d] in used and table[d] not in table:
+                todo.append(table[d])
+        if ok and len(set(table.get(d, d) for d in used)) == len(used) and table not in out:
+            out.append(table)
+    return out
+
+
 def normalize_symbols(problems, texts):
-    """Undo anthem's renaming of symbolic constants (<name> -> <name>__s on a clash with a 0-ary predicate), per problem
-    and *without restating that rule*: an emitted constant <name>__s that is not written anywhere in the task can only be
-    a renamed <name>, and it is read as <name> provided the problem does not also use <name> itself as a constant (two
-    emitted constants are never read as one - if anthem splits one input constant in two, the obligations see two).
-    Rewrites the formulas in place; returns the per-problem tables."""
+    """Undo anthem's renaming of symbolic constants per problem, reading the emitted constants off the task text
+    (symbol_readings, first - preferred - reading). Two emitted constants are never read as one: if anthem splits one
+    input constant in two, or merges two, the obligations see it. Rewrites the formulas in place; returns the tables."""
     names = input_names(*texts)
     tables = []
     for p in problems:
         used = set()
         for f in p['formulas']:
             _symbols_of(f['formula'], used)
-        table = {}
-        for d in sorted(used):
-            if d in names:
-                continue
-            # a constant that is not written in the task is a renamed one: it stands for the longest name of the task it
-            # extends (anthem's scheme: <name>__s) that the problem does not use as a constant itself
-            if d.endswith('__s') and d[:-3] in names:
-                if d[:-3] not in used:
-                    table[d] = d[:-3]
-                continue
-            stems = [c for c in names if d.startswith(c) and c not in used]
-            if len(stems) == 1:     # another (consistent) naming scheme: accepted only when the reading is unambiguous
-                table[d] = stems[0]
+        readings = symbol_readings(used, names)
+        table = readings[0] if readings else {}
         if table:
             for f in p['formulas']:
                 f['formula'] = _rename_symbols(f['formula'], table)
